@@ -4,6 +4,7 @@ Handle all padding.
 
 from __future__ import annotations
 
+from numbers import Number
 from typing import TYPE_CHECKING, Dict, Mapping, Optional, Tuple, Union
 
 import numpy as np
@@ -397,6 +398,20 @@ def pad(
     fill_value = grid._complete_user_kwargs_using_axis_defaults(
         fill_value, "fill_value"
     )
+
+    # An unknown boundary word or a non-numeric fill value has no defined meaning; refuse it
+    # here, whether or not this particular call ends up padding anything.
+    for ax, ax_padding in padding.items():
+        if ax_padding not in _XGCM_BOUNDARY_KWARG_TO_XARRAY_PAD_KWARG:
+            raise ValueError(
+                f"boundary must be one of {_XGCM_BOUNDARY_KWARG_TO_XARRAY_PAD_KWARG.keys()}, "
+                f"but got {ax_padding} for axis {ax}"
+            )
+    for ax, ax_fill_value in fill_value.items():
+        if ax_fill_value is not None and not isinstance(ax_fill_value, Number):
+            raise TypeError(
+                f"fill value must be a number, but got {ax_fill_value!r} for axis {ax}"
+            )
 
     # Exit without padding if all widths are zero
     if padding_width is None or all(
